@@ -315,15 +315,26 @@ CLAIMED['C08'] = dict(
          'C07): C08_stepper_restore (a restored stepper is the same state and denotes the same remaining program), '
          'C08_persisted_determines_future, C08_resume_equiv (for ANY list of crash points, by induction, the crash-restore chain gives '
          'the result and final world = call trace and context of the uninterrupted chain), C08_no_reexecution_no_skip. For plain '
-         'processes C08_continuation_persisted shows that run function, args, kwargs, callback, outputs, inputs survive save/load; its '
-         'composition with C13 is decided by the correspondence, not by a theorem. Real crash-restore chains (every subset of <= M '
-         'step boundaries, each restore in a fresh event loop, resume values replayed) are compared with the uninterrupted run and, '
-         'for outlines, with the model.',
+         'processes, on the process-control model of C01-C06/C13 with the bundle image saveCfg / restoreCfg (Persist/Plain.lean): '
+         'C08_plain_resume_equiv (for every program without waitOn, every history of stepping-task callbacks and resume requests and '
+         'ANY number of checkpoint/restore cuts at step boundaries, also several in a row: the call traces of the abandoned instances '
+         'up to their checkpoints followed by the trace of the last instance ARE the uninterrupted trace, state objects equal up to '
+         'the wait-future index, futures equal), C08_plain_same_outcome (same result + success flag / exception / KILLED), '
+         'C08_plain_no_reexecution_no_skip, C08_plain_same_point, C08_plain_restore_at_boundary, C08_plain_save_restore_save, '
+         'C08_plain_bundle_roundtrip (what restoreCfg reads survives Persist.save / medium / Persist.load of C07); '
+         'hypothesis: no callback of the uninterrupted run exhausts the model fuel. C08_continuation_persisted: run function, args, '
+         'kwargs, callback, outputs, inputs survive save/load in the persistence model of C07. Not proved: histories with pause / '
+         'play / kill next to crashes; outputs / inputs of plain processes (not in the process-control model; monitors). Real '
+         'crash-restore chains (every subset of <= M step boundaries, each restore in a fresh event loop, resume values replayed) '
+         'are compared with the uninterrupted run and with the model: outlines through runCrash, plain processes through crun.',
     note='Modelled, not verified: WorkChain._do_step, the steppers and their save/recreate as Lean model (Outline + Persist); the world of '
          'the chain model is the persisted context, handed over a crash unchanged (C07). Process machinery around a step is C13/C05. '
-         'The abandoned instance is not killed but ignored (its task is cancelled and its loop closed).',
-    technique='Lean 4 induction over crash-point lists on the outline-chain model with stepper persistence + crash/restore '
-              'differential runs on generated processes and outlines',
+         'The abandoned instance is not killed but ignored (its task is cancelled and its loop closed). saveCfg / restoreCfg (what a '
+         'bundle keeps of a process-control configuration) are hand-written and tied to the code by the plain-chain correspondence.',
+    technique='Lean 4 induction over crash-point lists on the outline-chain model with stepper persistence; simulation proof on the '
+              'process-control model for plain processes (write-only logs, freshness invariant of everything a bundle does not '
+              'carry, two-sided relation through the step loop cut at any boundary, induction over cuts and history) + crash/restore '
+              'differential runs on generated processes and outlines against both models',
     design='6/C08')
 
 PENDING_REASON = 'check not built yet in this revision (planned: Lean model + correspondence, see DESIGN.md section 6)'
